@@ -23,7 +23,7 @@ PROPS = ["C04", "C10", "C12"]
 PLAN = {
     "C04": {"quick": [("l2flags_q", "gen"), ("l2eps_q", "gen")],
             "thorough": [("l2flags_t4", "gen"), ("l2flags_t3", "gen"), ("l2eps_t4", "gen"), ("l2eps_t3", "gen")]},
-    "C12": {"quick": [("lemma", "model"), ("duel", "gen"), ("pair_q", "gen"), ("l2flags_q", "gen")],
+    "C12": {"quick": [("lemma", "model"), ("duel", "gen"), ("pair_q", "gen"), ("l2flags_h", "gen")],
             "thorough": [("lemma", "model"), ("duel", "gen"), ("pair_t", "gen"), ("l2flags_t3", "gen"), ("l2eps_t4", "gen")]},
     "C10": {"quick": [("bgpflags_q", "gen"), ("bgpeps9_q", "gen"), ("bgpeps3_q", "gen"), ("bgpepsm_q", "gen")],
             "thorough": [("bgpflags_t", "gen"), ("bgpeps9_q", "gen"), ("bgpeps3_q", "gen"), ("bgpepsm_q", "gen"),
